@@ -29,6 +29,8 @@ BUDGET = {'quick': 40, 'thorough': 900}
 
 NAMES = ['A', 'B', 'DATA_DIR', 'X1', 'name', 'Z']
 UNDEF = ['U', 'MISSING', 'a b', '', 'A ', '0']
+ODD_NAMES = ['data-dir', 'run.id', 'my var', 'é', '1', 'a:b', 'x/y', 'A.B']
+MAPPING_STYLES = ('dict', 'ordered_dict', 'defaultdict', 'fallback_dict', 'falsy_mapping')
 AMBIG = re.compile(r'\{[^}]*\{')
 
 
@@ -366,6 +368,7 @@ def check_config_case(rng, res: CaseResult):
             'tasks': [Probe],
             'uses': ['{DIR}/used.' + fmt + (' as ns' if rng.random() < 0.5 else '')],
             'own': 'o-{A}/{NUM}/{U}',
+            'human_readable_data_name': 'hr-{A}-{NUM}-{U}',      # a field with a meaning of its own to the library is config data like any other
             'pth': '{STORE}/models',
             'typed_s': '{DIR}/table-{A}.csv', 'typed_l': ['{A}', ['{B}']], 'typed_d': {'k': '{A}/{U}'},
             'lst': ['{A}', ['{B}{B}', 5, None], {'m': '{NUM}'}],
@@ -415,6 +418,10 @@ def check_config_case(rng, res: CaseResult):
             res.violate(f'values of the used config not substituted: {ucfg.data!r}', witness=wit)
         if repr(ucfg['used_param']) != repr('u-{A}'):
             res.violate(f'repr of substituted value in used config: {ucfg["used_param"]!r}', witness=wit)
+        hr_ = cfg.data.get('human_readable_data_name')
+        res.count('reserved_field_strings_checked')
+        if str(hr_) != ref_sub('hr-{A}-{NUM}-{U}', vars_):
+            res.violate(f'string in the config field human_readable_data_name is {str(hr_)!r} after construction, expected {ref_sub("hr-{A}-{NUM}-{U}", vars_)!r}', witness=wit)
         task = chain['probe']
         v = task.value
         exp = {
@@ -597,14 +604,19 @@ def run_case(case) -> CaseResult:
     rng = random.Random(case['seed'])
     if case['kind'] == 'trees':
         for i in range(case['n']):
-            defined = rng.sample(NAMES, rng.randint(0, 4))
+            style = rng.choice(GV_STYLES)
+            pool = NAMES
+            if style in MAPPING_STYLES and rng.random() < 0.4:
+                pool = NAMES + ODD_NAMES       # a mapping defines whatever keys it has: names need not be identifiers
+                res.count('mappings_with_non_identifier_names')
+            defined = rng.sample(pool, rng.randint(0, 4))
             vars_ = {n: rng.choice(['v', '', 'a/b', 7, 1.5, 'é{', 'plain', 'x' * 30, Path('/p/q'), None, True, '{B}', '<{A}>', '{Z}{Z}']) for n in defined}
             if rng.random() < 0.8:
                 vars_ = {k: (v if not (isinstance(v, str) and '{' in v) else 'w') for k, v in vars_.items()}
             tree = gen_tree(rng, defined)
             if rng.random() < 0.1:
                 tree = gen_string(rng, defined)
-            check_tree(tree, vars_, rng.choice(GV_STYLES), res, rng)
+            check_tree(tree, vars_, style, res, rng)
             if i == 0:
                 res.sample = {'tree': tree, 'vars': {k: repr(v) for k, v in vars_.items()}}
     else:
